@@ -773,7 +773,7 @@ func (rles RLEs) Partition(blockSize Point3d) (BlockRLEs, error) {
 func (rles RLEs) FitToBounds(bounds *OptionalBounds) RLEs {
 	newRLEs := make(RLEs, 0, len(rles))
 	if bounds == nil {
-		copy(newRLEs, rles)
+		newRLEs = append(newRLEs, rles...)
 		return newRLEs
 	}
 	for _, rle := range rles {
